@@ -700,6 +700,18 @@ class RewriteRuleSet:
                 if delta is None or tracer is not None:
                     continue
                 assert isinstance(delta, ReplacementSubgraph)
+                if rule.remove_nodes:
+                    # A pattern variable may be bound to the output of another matched node.
+                    # The replacement must not read a value whose producer is about to be
+                    # removed: skip the rewrite instead of failing in graph.remove().
+                    kept_values = set(delta.match.outputs)
+                    removed_values = {
+                        v for n in delta.match.nodes for v in n.outputs if v not in kept_values
+                    }
+                    if any(
+                        v in removed_values for n in delta.new_nodes for v in n.inputs
+                    ) or any(v in removed_values for v in delta.new_outputs):
+                        continue
                 if delta.new_initializers:
                     if isinstance(graph_or_function, ir.Function):
                         # TODO(rama): Can't add initializers to functions. But currently this is not
